@@ -86,5 +86,17 @@ def implicitRow (dot : List Rat) : Option Rat :=
   let denom := (dot.map fun d => if d < 0 then -d else d).foldl (· + ·) 0
   if denom = 0 then none else some (dot.foldl (· + ·) 0 / denom)
 
+/-- `ImplicitRegression._enough_parameters_used`: SOME row has at least `req` non-vanishing terms
+(`(abs(dot_product) > 1e-16).sum(1)`, `np.any(n_params_used >= required_params)`; exact rationals here) -/
+def enoughParams (req : Nat) (dots : List (List Rat)) : Bool :=
+  dots.any fun row => decide (req ≤ (row.filter (· ≠ 0)).length)
+
+/-- `ImplicitRegression.evaluate_fitness_vector`: with `required_params = some req` and no row using that many terms the
+whole vector is `inf` (`none`); otherwise one normalised row per data row -/
+def implicitVector (req : Option Nat) (dots : List (List Rat)) : List (Option Rat) :=
+  match req with
+  | some r => if enoughParams r dots then dots.map implicitRow else dots.map fun _ => none
+  | none => dots.map implicitRow
+
 end SavGol
 end Bingo
